@@ -1230,6 +1230,14 @@ LEVEL_TEXT += (" Extension round: the loop `while (f.readLine(s)) out << s;` dri
                "open succeeded (Obj.openAt; failed_open_keeps_path); after a failed READ-open on a missing path the object is exactly a "
                "path-only object of the new path and a lazy write creates and fills that file, every other path untouched "
                "(failed_open_is_fresh, failed_open_then_write; K op xfo).")
+LEVEL_TEXT += (" Second extension: reading back with the stream operators — File::operator>>(String&) (int32 length in host order "
+               "through the generic operator>>, then min(n, 1024)-byte reads until n bytes or an empty read; readI32, shrLoop, readStr, "
+               "hreadStr; buffer size and loop shape regenerated from File.h as Gen.File.shrBlock): for every byte string s shorter than "
+               "2^31 (NULs included), any following bytes and ANY buffer size >= 1, `f >> x` on a file holding le32(|s|) ++ s ++ tail — what "
+               "`f << int(s.length()) << s` wrote (le32_spec) — returns exactly s, the stream right behind it, end-of-file untouched "
+               "(shr_int_inverse, shr_string_inverse, shr_string_of_file); a length beyond the end of the file gives the bytes that are there "
+               "with end-of-file set (shr_string_beyond), a negative length the empty string (shr_string_negative). K ops xshw (write with "
+               "<< int << String << ByteArray, read with >>, then the rest) and xshr (raw files: truncated/negative/over-long lengths), python reference.")
 LEVEL_NOTE = ("Hypotheses (modelled, exercised by K, not verified): stdio and POSIX behave as listed under `assumptions` (fopen modes, fwrite "
               "delivery by fflush/fclose, fgets/fread/feof/ferror, stat size, rename/EXDEV/unlink). The model has no stdio buffer: the theorems about "
               "objects still open for writing (obj_reads open branch, obj_write_query_close `while still open`, obj_copy_move_preserve, "
@@ -1249,7 +1257,9 @@ LEVEL_NOTE = ("Hypotheses (modelled, exercised by K, not verified): stdio and PO
               "errors, so the failing-copy branch of the EXDEV move is in the model but never taken by K); printf/scanf/operator>> of "
               "TextFile, File::temp, Windows halves are outside the model. Stream operators: what `<<(const char*)`, `TextFile << int` "
               "(String(int), C03's formatting) and `File << int` in native byte order hand to fwrite is in the model (cstr, decimal, le32 with "
-              "cstr_spec, decimal_spec, le32_spec); the `_endian` swap of File::operator<<(const T&) / setEndian belongs to C16 and is not "
+              "cstr_spec, decimal_spec, le32_spec); File >> int (native order) and File >> String are in the model "
+              "(readI32, readStr; shr_* theorems, ops xshr/xshw), `>>` of other T, of Array<T> and of char/byte are not; "
+              "the `_endian` swap of File::operator<<(const T&) / operator>>(T&) / setEndian belongs to C16 and is not "
               "exercised here, other T of the TextFile template (double, ...) are C03's formatting. content() of a file of 2 GiB or more "
               "returns nothing ((int)size() is negative; observed on a sparse file, no memory error): outside the quantifier, theorems carry "
               "the bound. Repaired in /repo for this property: copy onto itself truncated "
